@@ -24,6 +24,7 @@ hconn <i> <id>                              -> <i> none|T|F               (PeerH
 dbg <i> <id>  |  dbgreg <i>                 -> <i> PeerHandle{peer_id:PeerId(N)}|none  /  PeerRegistry{len:N}
 ctx <i> new <id> <method> | ctx <i> detached <method>  -> <i> <method> <id/tag|-> <is_cancelled T|F> <cancelled() pending|ready> | none
 bcastfail <i> <json|beve> <path>            -> <i> err sent -             (encoder error: nothing is sent)
+loop <i> <setup> <cycle> <reader>.. :: <c=ans|ans;..>..  -> <i> ok <n> | <i> INADMISSIBLE   (looped race)
 enum <i> <depth> <fold> <prefix|->          -> one line per sequence `<i> <path> <ret> <digest> [h=<hash>]`
 conc <i> <setup|-> <t1> <t2> .. :: <outcome> ..     -> <i> ok <n> | <i> NONLIN <outcome>
 ```
@@ -99,19 +100,26 @@ def enumKeys : List Key := ["61", "62", "63"]
 inductive EOp where
   | ins (p : Nat) | rem (p : Nat) | alias (p : Nat) (k : Nat)
   | getby (k : Nat) | aliases (p : Nat) | len | bcast | get (p : Nat)
+  | keyfor (p : Nat) | peers
 
-/-- op codes: a-c ins, d-f rem, g-o alias p k, p-r getby, s-u aliases, v len, w bcast, x-z get -/
+/-- op codes: a-c ins, d-f rem, g-o alias p k, p-r getby, s-u aliases, v len, w bcast, x-z get,
+A-C (26-28) key_for, D (29) peers -/
 def eopOfCode (c : Nat) : Option EOp :=
   if c < 3 then some (.ins c) else if c < 6 then some (.rem (c - 3))
   else if c < 15 then some (.alias ((c - 6) / 3) ((c - 6) % 3))
   else if c < 18 then some (.getby (c - 15)) else if c < 21 then some (.aliases (c - 18))
   else if c = 21 then some .len else if c = 22 then some .bcast
-  else if c < 26 then some (.get (c - 23)) else none
+  else if c < 26 then some (.get (c - 23)) else if c < 29 then some (.keyfor (c - 26))
+  else if c = 29 then some .peers else none
 
-def codeChar (c : Nat) : Char := Char.ofNat (97 + c)
+def codeChar (c : Nat) : Char := if c < 26 then Char.ofNat (97 + c) else Char.ofNat (65 + c - 26)
+
+def codeOfChar (ch : Char) : Nat :=
+  if 97 ≤ ch.toNat ∧ ch.toNat < 123 then ch.toNat - 97
+  else if 65 ≤ ch.toNat ∧ ch.toNat < 69 then ch.toNat - 65 + 26 else 99
 
 def eopsOfString (p : String) : Option (List EOp) :=
-  if p = "-" then some [] else p.toList.mapM (fun ch => eopOfCode (ch.toNat - 97))
+  if p = "-" then some [] else p.toList.mapM (fun ch => eopOfCode (codeOfChar ch))
 
 def keyName (k : Nat) : Key := enumKeys.getD k "?"
 
@@ -126,6 +134,8 @@ def eApply (s : State) (tag : Nat) : EOp → Option (State × String)
   | .len => some (s, toString (len s))
   | .bcast => some (s, "{" ++ ",".intercalate ((sortBy (· < ·) ((snapshot s).map (·.id))).map toString) ++ "}")
   | .get p => some (s, showHandle (get s p))
+  | .keyfor p => some (s, (keyFor s p).getD "-")
+  | .peers => some (s, "[" ++ ",".intercalate ((sortBy (fun (a b : Handle) => a.id < b.id) (snapshot s)).map fun h => showHandle (some h)) ++ "]")
 
 def fnvStep (h : UInt64) (s : String) : UInt64 :=
   let h := s.foldl (fun h c => (h ^^^ c.toNat.toUInt64) * 0x100000001b3) h
@@ -344,7 +354,9 @@ def stepCore (st : St) (ws : List String) : St × String :=
         (note st [id] [], joinSp [i, c.method, showHandle c.peer, if c.isCancelled then "T" else "F",
                      if c.cancelledResolves then "ready" else "pending"])
     | none => (st, i ++ " bad-op")
-  | ["bcastfail", i, variant, path] =>
+  | "bcastfail" :: i :: variant :: path :: modeOpt =>
+    -- (an optional 5th token says how the body fails to encode; the model: `Err`, nothing sent, either way)
+    if modeOpt.length > 1 then (st, i ++ " bad-op") else
     let hlp? : Option Helper := if variant = "json" then some .json else if variant = "beve" then some .beve else none
     match hlp? with
     | some hlp =>
@@ -367,6 +379,49 @@ def stepCore (st : St) (ws : List String) : St × String :=
         (st, "\n".intercalate out.toList)
       | none => (st, i ++ " bad-op")
     | _, _, _ => (st, i ++ " bad-op")
+  | "loop" :: i :: setup :: cycle :: rest =>
+    -- one mutator cycles `cycle` (which returns to its start state) while readers repeat lookups: every
+    -- observed answer must be the answer in one of the states the cycle passes through
+    let (readers, observed) := splitAt "::" rest
+    let loopTag : EOp → Nat := fun op => match op with | .ins p => 10 + p | _ => 0
+    let rec runL (ops : List EOp) (s : State) (acc : List State) : Option (State × List State) :=
+      match ops with
+      | [] => some (s, acc)
+      | op :: r => match eApply s (loopTag op) op with
+        | some (s', _) => runL r s' (s' :: acc)
+        | none => none
+    match eopsOfString setup, eopsOfString cycle with
+    | some su, some cy =>
+      match runL su {} [] with
+      | none => (st, i ++ " bad-op")
+      | some (s0, _) =>
+        match runL cy s0 [s0] with
+        | none => (st, i ++ " bad-op")
+        | some (s1, states) =>
+          if digest s1 enumIds enumKeys ≠ digest s0 enumIds enumKeys ∨ readers.length ≠ observed.length ∨ cy.isEmpty then
+            (st, i ++ " bad-op")
+          else
+            -- observed token per reader: `c=ans|ans;c=ans`
+            let verdict := (readers.zip observed).foldl (fun (acc : Option Nat) (ro : String × String) =>
+              match acc with
+              | none => none
+              | some n =>
+                let parts := ro.2.splitOn ";"
+                if parts.length ≠ ro.1.length then none else
+                (ro.1.toList.zip parts).foldl (fun (acc : Option Nat) (cp : Char × String) =>
+                  match acc, eopOfCode (codeOfChar cp.1), cp.2.splitOn "=" with
+                  | some n, some op, [c, answers] =>
+                    if c ≠ String.singleton cp.1 then none else
+                    let adm := states.filterMap (fun s => (eApply s 0 op).map (·.2))
+                    let isQuery : Bool := match op with
+                      | .ins _ => false | .rem _ => false | .alias _ _ => false | _ => true
+                    let obs := if answers = "" then [] else answers.splitOn "|"
+                    if isQuery && obs.all (fun a => adm.contains a) then some (n + obs.length) else none
+                  | _, _, _ => none) (some n)) (some 0)
+            match verdict with
+            | some n => (st, i ++ " ok " ++ toString n)
+            | none => (st, i ++ " INADMISSIBLE")
+    | _, _ => (st, i ++ " bad-op")
   | "conc" :: i :: setup :: rest =>
     let (threads, observed) := splitAt "::" rest
     match eopsOfString setup, threads.mapM eopsOfString with
